@@ -17,6 +17,7 @@ structure DrvState where
   send : SendState := {}
   pipe : PipeWorld := {}
   pipeSpec : PipeSpecState := {}
+  dlgKeys : List (String × String) := []      -- C16: abstract key ↦ implementation id
 
 def execOp (st : DrvState) (toks : List String) : DrvState × String :=
   match toks with
@@ -103,6 +104,33 @@ partial def loop (ops impl : Array String) (i : Nat) (st : DrvState) (out : IO.F
     let segs := (line.splitOn " # ").drop 1
     let mut st'' := st'
     for seg in segs do
+      -- C16: implementation identifiers must be in bijection with the abstract dialog keys
+      if (words seg).take 2 == ["spec=C16", "key"] then
+        let want := (words seg).getD 2 "?"
+        let got : Option String := match words implLine with
+          | "id" :: h :: _ => some h
+          | "none" :: _ => none
+          | _ => some "unreadable"
+        match got with
+        | none =>
+          if want != "none" then
+            IO.println s!"SPEC {i + 1} C16 message-with-both-tags-attributed-to-no-dialog"
+            s := s + 1
+        | some h =>
+          if want == "none" then
+            IO.println s!"SPEC {i + 1} C16 message-lacking-a-tag-attributed-to-a-dialog"
+            s := s + 1
+          else
+            match st''.dlgKeys.find? (fun e => e.1 == want), st''.dlgKeys.find? (fun e => e.2 == h) with
+            | some (_, h'), _ =>
+              if h' != h then
+                IO.println s!"SPEC {i + 1} C16 same-dialog-different-identifier"
+                s := s + 1
+            | none, some _ =>
+              IO.println s!"SPEC {i + 1} C16 different-dialogs-same-identifier"
+              s := s + 1
+            | none, none => st'' := { st'' with dlgKeys := (want, h) :: st''.dlgKeys }
+        continue
       if toks.head? == some "pipe" || toks.head? == some "wire" then
         let (ps, errs) := specPipeSeg st''.pipeSpec toks (words seg) (words implLine)
         st'' := { st'' with pipeSpec := ps }
